@@ -88,6 +88,10 @@ impl RngCore for Src {
 }
 
 fn fill_len(p: &mut P, block: usize) -> usize {
+    // rarely a very long request (more than 2^16 words of any generator)
+    if p.below(400) == 0 {
+        return 270_000 + p.below(64) as usize;
+    }
     match p.below(8) {
         0..=3 => p.below(18) as usize,
         4 => block - 1 + p.below(3) as usize,
@@ -154,7 +158,7 @@ fn run_seeded<R: RngCore + SeedableRng + Clone>(
 
 fn jitter_script(p: &mut P, n: usize) -> Vec<u64> {
     const HUGE: [u64; 8] = [0x7fff_ffff, 0x8000_0000, 0x8000_0001, 0xffff_ffff, 0x1_0000_0000, 0x1_0000_0001, 1 << 63, u64::MAX];
-    let class = p.below(7);
+    let class = p.below(8);
     let mut t: u64 = match p.below(3) { 0 => 1, 1 => p.u(), _ => 1_000_000_000 };
     if class == 5 { t = u64::MAX - p.below(4096); }
     let k = 4 + p.below(27);
@@ -169,7 +173,9 @@ fn jitter_script(p: &mut P, n: usize) -> Vec<u64> {
                 let d = HUGE[p.below(8) as usize].wrapping_add(p.below(3));
                 if p.below(2) == 0 { d } else { d.wrapping_neg() }
             } else { 1 + p.below(9) },
-            _ => if p.below(40) == 0 { t = 0; 7 } else { 1 + p.below(1 << k) },
+            6 => if p.below(40) == 0 { t = 0; 7 } else { 1 + p.below(1 << k) },
+            // coarse clock: the reading often does not change between calls
+            _ => if p.below(3) == 0 { 1 + p.below(1 << k) } else { 0 },
         };
         t = t.wrapping_add(step);
         v.push(t);
